@@ -291,6 +291,47 @@ def check_case(ctx, case, paths, mres):
 
 # ----------------------------------------------------------------------------- generators
 
+def big_case(desc):
+    """columns far larger than any small buffer (a chunked / buffered writer must still emit every element): the case is
+    described by shapes and a seed only, the bytes are regenerated"""
+    rng = np.random.default_rng([int(desc['seed']), 20])
+    files = []
+    for fcols in desc['files']:
+        cols = []
+        for name, dt, shape in fcols:
+            d = np.dtype(dt)
+            nbytes = int(np.prod(shape)) * d.itemsize
+            cols.append({'name': name, 'dtype': dt, 'shape': list(shape), 'hex': bytes(rng.integers(0, 256, nbytes, dtype=np.uint8)).hex()})
+        files.append(cols)
+    return {'kind': 'big', 'files': files, 'fields': list(desc['fields']), 'compression': 'none', 'tty': False}
+
+
+BIG_DESCS = [
+    dict(kind='big', seed=1, fields=['pos', 'id'],
+         files=[[('pos', '<f4', [100000, 3]), ('id', '<i8', [100000])], [('pos', '<f4', [50, 3]), ('id', '<i8', [50])]]),
+    dict(kind='big', seed=2, fields=['w', 'q'],
+         files=[[('w', '<f8', [400000]), ('q', '<i2', [200000, 5])], [('w', '<f8', [3]), ('q', '<i2', [70000, 5])]]),
+]
+
+
+def check_big(ctx, descs=BIG_DESCS):
+    for k, desc in enumerate(descs):
+        case = big_case(desc)
+        paths = materialise(ctx, case, 900000 + k)
+        r = run_impl(case, paths)
+        exp, experr = spec(case)
+        ctx.case(desc, nontrivial=True)
+        ctx.count('big columns (oracle only)')
+        got = bytes.fromhex(r['written'])
+        if r['err'] != 'none' or got != exp:
+            # locate the first difference instead of dumping megabytes
+            n = min(len(got), len(exp))
+            first = next((i for i in range(n) if got[i] != exp[i]), n)
+            ctx.fail('unpack_to_pipe does not emit count, width and every byte of a large column', desc,
+                     dict(err=r['err'], written_bytes=len(got), first_difference_at=first), dict(err='none', written_bytes=len(exp)),
+                     key='pipe:big-column')
+
+
 def gen_column(rng, name, dtype=None, n=None, ncomp=None):
     dt = dtype if dtype is not None else DTYPES[int(rng.integers(0, len(DTYPES)))]
     d = np.dtype([tuple(x) for x in dt] if isinstance(dt, list) else dt)
@@ -481,6 +522,7 @@ def run(ctx):
         cases.append({'kind': 'boundary', 'files': [[]], 'fields': ['pos'], 'compression': 'none', 'tty': False})
         for i in range(0, len(cases), 40):
             run_cases(ctx, cases[i:i + 40], i)
+        check_big(ctx)
         run_cli(ctx)
     except Enough:
         ctx.count('stopped-early')
@@ -505,6 +547,9 @@ def intensify(ctx):
 def replay(ctx, doc):
     from abacusnbody.data import pipe_asdf  # noqa: F401
     c = doc['failure']['case'] if 'failure' in doc else doc
+    if c.get('kind') == 'big':
+        check_big(ctx, [c])
+        return
     for k in ('cli', 'argv', 'style'):
         c.pop(k, None)
     try:
